@@ -135,8 +135,8 @@ class SRTWriter(BaseWriter):
 
             # Eliminate excessive line breaks; a blank line would end the cue
             new_content = new_content.strip()
-            while '\n\n' in new_content:
-                new_content = new_content.replace('\n\n', '\n')
+            new_content = '\n'.join(
+                line for line in new_content.split('\n') if line.strip())
 
             srt += f"{new_content}\n\n"
             count += 1
